@@ -20,7 +20,11 @@ package main
 
 import (
 	"fmt"
+	"io"
 	"os"
+	"time"
+
+	logrus "github.com/sirupsen/logrus"
 
 	c "github.com/buzzfeed/sso/internal/zz_verif/common"
 )
@@ -28,6 +32,16 @@ import (
 func main() {
 	a := c.ParseArgs()
 	c.Quiet()
+	// production logs at info level through logrus' JSON formatter; keep that path alive (fields are
+	// built and formatted), only the output goes nowhere
+	logrus.SetOutput(io.Discard)
+	logrus.SetLevel(logrus.InfoLevel)
+	// half of the seeds run with the local time zone east of UTC: nothing about a login may depend on it
+	if a.Seed%2 == 0 {
+		time.Local = time.FixedZone("UTC+13", 13*3600)
+	} else {
+		time.Local = time.FixedZone("UTC-11", -11*3600)
+	}
 	r := c.NewRng(a.Seed)
 	w, err := newWorld()
 	if err != nil {
